@@ -479,7 +479,12 @@ TRUSTED = [
 ]
 
 if __name__ == "__main__":
+    import translate_split
+    from common import source_obligation
     main("C12", [SplitStream(), EditedSplit(), SplitParams()],
+         source_obligations=[
+             source_obligation("SplitSrc_C12", translate_split.translate, "SplitSrcProof.v",
+                               ["split_step_src_is_split_step", "split_sets_src_is_split_sets", "split_parts_src_spec"])],
          level_text="props/C12.v; the tie runs split() of /repo on random graphs (trees, cycles, multi-links, isolated "
                     "structures) in random declaration orders, compares the partition as a set of sets with the model of the "
                     "incremental union and every returned solver's matrix with the model's solve of that part; parametric circuits (renamed phase shifters, waveguides, add_param, solver defaults): every part must answer like the original for several assignments including none, also after the original's defaults are changed later.",
